@@ -48,7 +48,7 @@ pub fn run(args: &Args, r: &mut Report) {
     ]);
     r.assume("whether a report whose app list would be empty (only unknown ids offered) is sent is a don't-care");
     r.assume("the download_time_ms attribute of events is not part of the statement and is not compared");
-    let n_total = if args.thorough() { 125 * 5 * 3 * 2 * 2 * 12 } else { 125 * 5 * 3 * 2 * 2 / 3 * 2 };
+    let n_total = if args.thorough() { 125 * 5 * 3 * 2 * 2 * 20 } else { 125 * 5 * 3 * 2 * 2 * 2 };
     let n_total = (n_total as f64 * args.scale) as u64;
     for gi in 0..n_total {
         if !args.mine(gi) || args.skip(gi) {
